@@ -80,6 +80,7 @@ func Discriminator(avg uint64) uint32 {
 	return uint32(float64(avg) / (-1.42888852e-7*float64(avg) + 1.33237515))
 }
 
+//go:norace
 func windowHash(w []byte) uint32 {
 	var h uint32
 	for i, b := range w {
@@ -93,6 +94,8 @@ func windowHash(w []byte) uint32 {
 // [min+1, max] for which the hash of the 48 bytes ending at s, modulo the
 // discriminator, equals discriminator-1; else at max; the remainder (<= min
 // bytes, or no cut found before the end) is the last chunk.
+//
+//go:norace
 func RefChunks(data []byte, min, avg, max uint64) []uint64 {
 	d := Discriminator(avg)
 	var out []uint64
@@ -123,6 +126,8 @@ func RefChunks(data []byte, min, avg, max uint64) []uint64 {
 
 // RefChunksFast is the same rule with a rolling hash; used for large inputs
 // after being cross-checked against RefChunks by the worker on small ones.
+//
+//go:norace
 func RefChunksFast(data []byte, min, avg, max uint64) []uint64 {
 	d := Discriminator(avg)
 	var out []uint64
@@ -154,4 +159,26 @@ func RefChunksFast(data []byte, min, avg, max uint64) []uint64 {
 		p += cut
 	}
 	return out
+}
+
+// FindWindow returns 48 bytes whose window hash h satisfies h % d == d-1 (a cut point for discriminator d) but neither
+// h % (d-1) == d-2 nor h % (d+1) == d: a chunker whose discriminator is off by one does not cut there. seed drives the search.
+//
+//go:norace
+func FindWindow(d uint32, seed uint64) []byte {
+	w := make([]byte, window)
+	x := seed | 1
+	for try := 0; try < 200000000; try++ {
+		for i := range w {
+			x ^= x << 13
+			x ^= x >> 7
+			x ^= x << 17
+			w[i] = byte(x >> 32)
+		}
+		h := windowHash(w)
+		if h%d == d-1 && (d < 3 || (h%(d-1) != d-2 && h%(d+1) != d)) {
+			return w
+		}
+	}
+	return nil
 }
